@@ -275,20 +275,18 @@ impl<'c> State<'c> {
         o.reuse += rep.reachable.difference(&self.prev_reach).filter(|p| **p < ph).count() as u64;
         self.prev_reach = rep.reachable.clone();
         self.prev_flrun = rep.freelist_run.clone();
-        // the file itself: it may only get longer when the pages of this commit did not fit, and then by
-        // no more than the allocation step (8 MiB) plus one step of slack
+        // the file itself: its length must stay within a fixed slack of what its pages (or the length it
+        // was created with) need.  How and when an implementation extends the file - in which steps,
+        // ahead of need or not - is its own business (an earlier version of this rule flagged any
+        // extension made while the pages still fitted, which a harmless pre-extension policy would
+        // trip); what the property rules out is a length that keeps growing while the pages do not.
         let len = std::fs::metadata(path).map(|md| md.len()).unwrap_or(0);
-        if self.prev_len > 0 {
-            if len > self.prev_len && m.num_pages * ps <= self.prev_len {
-                o.violations.push(("space:file-extended-without-need".into(), format!("transaction {}: the file grew from {} to {} bytes although the {} pages in use fit into the old length", t, self.prev_len, len, m.num_pages)));
-                return Ok(false);
-            }
-            if len > (m.num_pages * ps).max(self.prev_len) + (16 << 20) + ps {
-                o.violations.push(("space:file-much-longer-than-its-pages".into(), format!("transaction {}: file length {} for {} pages of {} bytes (previous length {})", t, len, m.num_pages, ps, self.prev_len)));
-                return Ok(false);
-            }
+        if self.prev_len == 0 {
+            self.prev_len = len; // the length the run started with
+        } else if len > (m.num_pages * ps).max(self.prev_len) + (16 << 20) + ps {
+            o.violations.push(("space:file-much-longer-than-its-pages".into(), format!("transaction {}: file length {} for {} pages of {} bytes (length at the start of the run {})", t, len, m.num_pages, ps, self.prev_len)));
+            return Ok(false);
         }
-        self.prev_len = len;
         self.prev_hwm = m.num_pages;
         o.hwm.push(m.num_pages);
         Ok(true)
